@@ -50,6 +50,20 @@ pub fn string_to_source(s: &str) -> String {
     }
 }
 
+/// Source text of a number. NaN and the infinities have no literal: they are written as
+/// expressions that evaluate to them.
+fn number_to_source(n: f64) -> String {
+    if n.is_nan() {
+        "(0 / 0)".to_string()
+    } else if n.is_infinite() {
+        if n > 0.0 { "inf".to_string() } else { "-inf".to_string() }
+    } else if n.fract() == 0.0 && n.abs() < 1e15 {
+        format!("{:.0}", n)
+    } else {
+        n.to_string()
+    }
+}
+
 /// Format a record key, adding quotes if necessary
 pub fn format_record_key(key: &str) -> String {
     if is_valid_identifier(key) {
@@ -315,11 +329,7 @@ pub fn expr_to_source_with_scope(
         Expr::InputReference(field) => format!("#{}", field),
         // For all other expression types, recursively process with scope
         Expr::Number(n) => {
-            if n.fract() == 0.0 && n.abs() < 1e15 {
-                format!("{:.0}", n)
-            } else {
-                n.to_string()
-            }
+            number_to_source(*n)
         }
         Expr::String(s) => string_to_source(s),
         Expr::Bool(b) => b.to_string(),
@@ -476,11 +486,7 @@ fn record_entry_to_source_with_scope(
 fn serializable_value_to_source(value: &SerializableValue) -> String {
     match value {
         SerializableValue::Number(n) => {
-            if n.fract() == 0.0 && n.abs() < 1e15 {
-                format!("{:.0}", n)
-            } else {
-                n.to_string()
-            }
+            number_to_source(*n)
         }
         SerializableValue::Bool(b) => b.to_string(),
         SerializableValue::Null => "null".to_string(),
